@@ -218,6 +218,27 @@ def loop_header_positions(text):
     return res
 
 
+def fuzzy_anchor(text, anchor, threshold=0.72, margin=0.08):
+    """Index in `text` of the start of the unique line most similar to `anchor`, or None."""
+    import difflib
+    a = anchor.strip()
+    best = []
+    pos = 0
+    for line in text.split("\n"):
+        st = line.strip()
+        if st and not st.startswith("//"):
+            cand = st[:len(a) + 6]
+            r = difflib.SequenceMatcher(None, a, cand, autojunk=False).ratio()
+            best.append((r, pos + (len(line) - len(line.lstrip()))))
+        pos += len(line) + 1
+    best.sort(reverse=True)
+    if not best or best[0][0] < threshold:
+        return None
+    if len(best) > 1 and best[1][0] > best[0][0] - margin:
+        return None
+    return best[0][1]
+
+
 def process_template(tmpl_text, repo=None):
     repo = repo or overlay.REPO
     out = []
@@ -336,6 +357,15 @@ def process_template(tmpl_text, repo=None):
                 sm = re.match(r'^`(.*?)`$', d["arg"])
                 anchor = sm.group(1).replace("\\n", "\n")
                 idxs = [mm.start() for mm in re.finditer(re.escape(anchor), t1)]
+                if len(idxs) == 0 and "\n" not in anchor:
+                    # The anchored statement was edited.  Look for the unique line that still
+                    # resembles it (a one-token change keeps > 70 % of the text): the hint then
+                    # stays in place and the EDITED statement is judged by the verifier.  A hint
+                    # that no longer type-checks there (renamed local) still ends as undecided.
+                    fz = fuzzy_anchor(t1, anchor)
+                    if fz is not None:
+                        idxs = [fz]
+                        entry.setdefault("fuzzy_anchors", []).append(anchor)
                 if len(idxs) != 1:
                     # A ghost hint whose anchor statement is gone is skipped; the unit is then
                     # verified without it.  If that still verifies the hint was not needed; if
